@@ -15,7 +15,7 @@ ASSUMPTIONS = [
 
 TEXT_POOL = [None, "Def", "def", " d e f ", "other"]
 UNIT_POOL = [None, "mV", "V"]
-UNC_POOL = [None, 0.5, 2]
+UNC_POOL = [None, 0.5, 2, 0]
 
 
 def norm(text):
@@ -320,7 +320,7 @@ def property_pair_ob(v):
     if attr == "unit":
         dpool, spool = UNIT_POOL, UNIT_POOL
     elif attr == "uncertainty":
-        dpool, spool = [None, 0.5], UNC_POOL
+        dpool, spool = [None, 0.5, 0.0], UNC_POOL
     else:
         dpool, spool = [None, "Def"], TEXT_POOL
     setattr(dp, attr, v.pick("d." + attr, dpool))
